@@ -50,7 +50,41 @@ theorem mtl_eq_spec (E : Engine α) (ndim : Key → Nat) (losses features : List
     ∀ k, o.grads k =
       if k ∈ shared then accum (h k) (sliceOf E.numel shared k v)
       else taskAccum E (List.zip tps losses) k (h k) := by
-  sorry
+  have hchecks : MtlChecks E ndim losses features tps shared chunk :=
+    ⟨hv.chunk_pos, hv.feat_ne, fun p hp hps => by
+        obtain ⟨tp, htp, hptp⟩ := List.mem_flatten.mp hp
+        exact hv.no_overlap tp htp p hptp hps,
+      fun l hl => (hv.scalar l hl).1, hv.losses_ne, hv.len,
+      fun p hp => (hv.params_ok p hp).1, hv.tp_nodup, hv.feat_nodup, hv.shared_nodup⟩
+  have hcore : mtlBackward E ndim losses features tps shared A chunk retain h =
+      mtlCore E losses features tps shared A chunk retain h := by
+    rcases mtlBackward_cases E ndim losses features tps shared A chunk retain h with
+      ⟨hn, -⟩ | ⟨-, heq⟩
+    · exact absurd hchecks hn
+    · exact heq
+  have hok : ∀ tl ∈ List.zip tps losses, TaskOk E features tl := by
+    intro tl htl
+    have htp := (List.of_mem_zip htl).1
+    have hl := (List.of_mem_zip htl).2
+    refine ⟨?_, (hv.scalar tl.2 hl).2, (List.nodup_append.mp (hv.tp_nodup tl.1 htp)).1, ?_⟩
+    · apply callOk_of
+      · intro t ht
+        rw [List.mem_singleton] at ht
+        subst ht
+        exact hv.losses_rg _ hl
+      · intro i hi
+        rcases List.mem_append.mp hi with hi | hi
+        · exact (hv.params_ok i (List.mem_append_right _
+            (List.mem_flatten.mpr ⟨tl.1, htp, hi⟩))).2
+        · exact hv.feats_rg i hi
+    · intro p hp
+      exact (hv.params_ok p (List.mem_append_right _ (List.mem_flatten.mpr ⟨tl.1, htp, hp⟩))).1
+  intro o
+  have ho : o = mtlCore E losses features tps shared A chunk retain h := hcore
+  rw [ho]
+  exact mtlCore_spec E hv.wf losses features tps shared A chunk retain h hv.feat_ne hs
+    hv.losses_ne hv.len hv.chunk_pos hv.shared_nodup hv.feats_rg
+    (fun p hp => hv.params_ok p (List.mem_append_left _ hp)) hv.no_overlap hok v hA hlen
 
 /-- row `i` always belongs to `losses[i]`: the matrix handed to the aggregator has one row per loss,
     in the order of `losses`, whatever the tasks' parameter lists -/
@@ -58,7 +92,9 @@ theorem mtl_rows_in_loss_order (E : Engine α) (losses features shared : List Ke
     (hi : i < losses.length) :
     (mtlJac E losses features shared).getD i [] = mtlRow E features shared (losses.getD i 0) ∧
     (mtlJac E losses features shared).length = losses.length := by
-  sorry
+  unfold mtlJac
+  refine ⟨?_, by simp⟩
+  exact getD_map_of_lt _ losses i 0 [] hi
 
 /-- task parameters receive their own-task gradients whatever the aggregator does, even when it
     rejects the matrix (the shared parameters are then untouched) -/
@@ -68,12 +104,42 @@ theorem mtl_task_params_any_aggregator (E : Engine α) (ndim : Key → Nat) (los
     (hv : ValidMtl E ndim losses features tps shared chunk) (k : Key) (hk : k ∉ shared) :
     (mtlBackward E ndim losses features tps shared A chunk retain h).grads k =
       taskAccum E (List.zip tps losses) k (h k) := by
-  sorry
+  have hchecks : MtlChecks E ndim losses features tps shared chunk :=
+    ⟨hv.chunk_pos, hv.feat_ne, fun p hp hps => by
+        obtain ⟨tp, htp, hptp⟩ := List.mem_flatten.mp hp
+        exact hv.no_overlap tp htp p hptp hps,
+      fun l hl => (hv.scalar l hl).1, hv.losses_ne, hv.len,
+      fun p hp => (hv.params_ok p hp).1, hv.tp_nodup, hv.feat_nodup, hv.shared_nodup⟩
+  have hcore : mtlBackward E ndim losses features tps shared A chunk retain h =
+      mtlCore E losses features tps shared A chunk retain h := by
+    rcases mtlBackward_cases E ndim losses features tps shared A chunk retain h with
+      ⟨hn, -⟩ | ⟨-, heq⟩
+    · exact absurd hchecks hn
+    · exact heq
+  have hok : ∀ tl ∈ List.zip tps losses, TaskOk E features tl := by
+    intro tl htl
+    have htp := (List.of_mem_zip htl).1
+    have hl := (List.of_mem_zip htl).2
+    refine ⟨?_, (hv.scalar tl.2 hl).2, (List.nodup_append.mp (hv.tp_nodup tl.1 htp)).1, ?_⟩
+    · apply callOk_of
+      · intro t ht
+        rw [List.mem_singleton] at ht
+        subst ht
+        exact hv.losses_rg _ hl
+      · intro i hi
+        rcases List.mem_append.mp hi with hi | hi
+        · exact (hv.params_ok i (List.mem_append_right _
+            (List.mem_flatten.mpr ⟨tl.1, htp, hi⟩))).2
+        · exact hv.feats_rg i hi
+    · intro p hp
+      exact (hv.params_ok p (List.mem_append_right _ (List.mem_flatten.mpr ⟨tl.1, htp, hp⟩))).1
+  obtain ⟨h1, hrun, hh1⟩ := runTasks_spec E features hv.feat_ne (List.zip tps losses) h hok
+  rw [hcore, mtlCore_not_shared E losses features tps shared A chunk retain h h1 _ hrun k hk, hh1 k]
 
 /-- a parameter listed by no task and not shared is untouched -/
 theorem taskAccum_unlisted (E : Engine α) (tasks : List (List Key × Key)) (p : Key)
     (g : Option (Vec α)) (hp : ∀ tl ∈ tasks, p ∉ tl.1) : taskAccum E tasks p g = g := by
-  sorry
+  exact taskAccum_unlisted' E tasks p g hp
 
 /-- shared/task overlap is rejected before anything changes -/
 theorem mtl_rejects_overlap (E : Engine α) (ndim : Key → Nat) (losses features : List Key)
@@ -82,7 +148,11 @@ theorem mtl_rejects_overlap (E : Engine α) (ndim : Key → Nat) (losses feature
     (p : Key) (hp : p ∈ tps.flatten) (hps : p ∈ shared) :
     (mtlBackward E ndim losses features tps shared A chunk retain h).err = some Err.value ∧
     (mtlBackward E ndim losses features tps shared A chunk retain h).grads = h := by
-  sorry
+  rcases mtlBackward_cases E ndim losses features tps shared A chunk retain h with
+    ⟨-, heq⟩ | ⟨hok, -⟩
+  · rw [heq]
+    exact ⟨rfl, rfl⟩
+  · exact absurd hps (hok.2.2.1 p hp)
 
 /-- with a linear aggregator the shared parameters receive what PyTorch would give: for
     `Constant(w)`, the gradient of `Σ_i w_i · losses[i]` back-propagated through the features -/
@@ -91,6 +161,20 @@ theorem mtl_constant_row_combination (E : Engine α) (losses features shared : L
     constAgg w (mtlJac E losses features shared) =
       .ok (vsum ((shared.map E.numel).sum)
             (List.zipWith (fun wi l => smul wi (mtlRow E features shared l)) w losses)) := by
-  sorry
+  have hrows : ∀ row ∈ mtlJac E losses features shared, row.length = (shared.map E.numel).sum := by
+    intro row hrow
+    unfold mtlJac at hrow
+    obtain ⟨l, _, rfl⟩ := List.mem_map.mp hrow
+    exact mtlRow_length E hE features shared l
+  have hne : mtlJac E losses features shared ≠ [] := by
+    unfold mtlJac
+    simpa using hl
+  have hlen : (mtlJac E losses features shared).length = w.length := by
+    unfold mtlJac
+    simp [hw]
+  unfold constAgg
+  rw [if_neg (by simpa using hlen), ncols_of_rows _ _ hne hrows, combine_def]
+  unfold mtlJac
+  rw [List.zipWith_map_right]
 
 end Tjd.Props.C02
